@@ -83,6 +83,20 @@ RemoteWrite(c, ch, v) == c \in open /\ Update(ch, v, c, "Remote")
 \* the update runs with the reading connection as origin).
 GetterRead(c, ch, v) == c \in open /\ Update(ch, v, c, "Getter")
 
+\* Two controllers write the same value at the same time.  Comparing with the current value and storing the new one is one
+\* step (guard compare_and_store_atomic): whichever write comes first is the change, the other one finds the value unchanged.
+\* Without the guard both compare before either stores: both are taken for a change, everybody else is notified twice and
+\* the two writers notify each other.
+RemoteWriteRace(c, d, ch, v) ==
+  /\ c \in open /\ d \in open /\ c # d
+  /\ IF Guard("compare_and_store_atomic")
+     THEN \E first \in {c, d} : Update(ch, v, first, "RemoteRace")
+     ELSE /\ val' = [val EXCEPT ![ch] = v]
+          /\ got' = [x \in Conn |-> IF v # val[ch] /\ x \in (Targets(ch, c) \cup Targets(ch, d)) THEN {<<ch, v>>} ELSE {}]
+          /\ dup' = (v # val[ch] /\ (Targets(ch, c) \cap Targets(ch, d)) # {})
+          /\ appPanic' = FALSE
+          /\ last' = <<"RemoteRace", c, ch, v>> /\ UNCHANGED <<open, subs>>
+
 \* one PUT entry carrying a value AND ev (hap/http/characteristics.go:128-150: the value is written first, then the
 \* subscription changes); sub = TRUE subscribes, FALSE unsubscribes
 RemoteWriteEv(c, ch, v, sub) ==
@@ -101,6 +115,7 @@ Next == \/ \E c \in Conn : Connect(c) \/ Close(c)
         \/ \E c \in Conn, ch \in Char : Subscribe(c, ch) \/ Unsubscribe(c, ch)
         \/ \E ch \in Char, v \in Vals : LocalSet(ch, v) \/ \E c \in Conn : RemoteWrite(c, ch, v) \/ LocalSetRacingClose(ch, v, c) \/ GetterRead(c, ch, v)
         \/ \E ch \in Char, v \in Vals, c \in Conn, sub \in BOOLEAN : RemoteWriteEv(c, ch, v, sub)
+        \/ \E ch \in Char, v \in Vals, c, d \in Conn : RemoteWriteRace(c, d, ch, v)
 Spec == Init /\ [][Next]_vars
 
 \* ---- the property, phrased on observables only: `want` is the monitor's ghost (what each open connection asked for)
@@ -113,7 +128,7 @@ WantNext == want' = CASE last'[1] \in {"Sub", "RemoteSub"} /\ last'[3] \in Event
 GNext == Next /\ WantNext
 GSpec == GInit /\ [][GNext]_<<vars, want>>
 
-Expected(c) == IF /\ last'[1] \in {"Local", "Remote", "Getter", "LocalRace", "RemoteSub", "RemoteUnsub"}
+Expected(c) == IF /\ last'[1] \in {"Local", "Remote", "Getter", "LocalRace", "RemoteSub", "RemoteUnsub", "RemoteRace"}
                   /\ last'[4] # val[last'[3]]
                   /\ c \in open /\ c # last'[2] /\ <<c, last'[3]>> \in want
                THEN {<<last'[3], last'[4]>>} ELSE {}
